@@ -628,6 +628,8 @@ def run(ctx, rep):
     from sa.report import RuleProxy as _RPd
     _c10.check_whole_reductions(ctx, _RPd(rep, 'C07.L', 'per-sample::'), only=lambda mn: mn in ('torchtree.distributions.transforms', 'torchtree.evolution.rate_transform',
                                                                                                   'torchtree.evolution.tree_height_transform'))
+    _c10.check_front_axes(ctx, _RPd(rep, 'C07.L', 'per-sample::'), only=lambda mn: mn in ('torchtree.distributions.transforms', 'torchtree.evolution.rate_transform',
+                                                                                           'torchtree.evolution.tree_height_transform'))
     # the image handed to log_abs_det_jacobian must be the image of the *current* value: torch's identity-keyed (x, y) cache must stay off
     from props import c11
     c11.check_transform_cache(ctx, rep, rule='C07.C')
